@@ -211,6 +211,11 @@ func (r *RootExpr) Validate() error {
 	if r.API == nil {
 		verr.Add(r, "Missing API declaration")
 	}
+	for _, rt := range r.ResultTypes {
+		if view, ok := rt.explicitViewDefined(); !ok {
+			verr.Add(rt, "type %q does not define view %q", rt.TypeName, view)
+		}
+	}
 	return &verr
 }
 
